@@ -1901,7 +1901,8 @@ uint32_t bufr_cvt_fval_to_i32(int code, BufrValueEncoding *be, float fval)
       {
       char buffer[128];
       int32_t  minval;
-      minval = rint(fval * val_pow);
+      val1 = rint(fval * val_pow);
+      minval = (val1 > -2.0e9) ? (int32_t)val1 : INT32_MIN + 1;
       bufr_minimum_reference = minval - 1;
       bufr_errtbe = *be;
       bad_descriptor = code;
@@ -2136,7 +2137,8 @@ uint64_t bufr_cvt_dval_to_i64(int code, BufrValueEncoding *be, double fval)
       {
       char buffer[128];
       int64_t  minval;
-      minval = rint(fval * val_pow);
+      val1 = rint(fval * val_pow);
+      minval = (val1 > -9.0e18) ? (int64_t)val1 : INT64_MIN + 1;
       bufr_minimum_reference = minval - 1;
       bufr_errtbe = *be;
       bad_descriptor = code;
